@@ -170,7 +170,7 @@ pub fn seq_phases(prop: &str, tier: &str) -> Vec<Phase> {
                     },
                     Phase {
                         name: "core alphabet, rotation every 1-2 writes, deeper",
-                        spec: spec(prop, Alpha::Core, 4, vec![Cfg::records(2), Cfg::records(3)], o.clone(), 40),
+                        spec: spec(prop, Alpha::Core, 5, vec![Cfg::records(2), Cfg::records(3)], o.clone(), 40),
                     },
                 ]
             }
@@ -277,7 +277,7 @@ pub fn seq_phases(prop: &str, tier: &str) -> Vec<Phase> {
                 panics_only: true,
                 ..Default::default()
             };
-            let mut s = spec(prop, Alpha::Core, if thorough { 4 } else { 2 }, vec![Cfg::records(3)], o, if thorough { 1500 } else { 45 });
+            let mut s = spec(prop, Alpha::Core, if thorough { 4 } else { 3 }, vec![Cfg::records(3)], o, if thorough { 1500 } else { 45 });
             s.grid_probes = true;
             vec![Phase { name: "argument grid at every state reached by the core alphabet", spec: s }]
         }
@@ -667,7 +667,7 @@ pub fn sched_specs(prop: &str, tier: &str) -> Vec<HistSpec> {
         }
         "C04" => {
             let alpha = [Sym::A, Sym::F, Sym::W, Sym::Abig, Sym::T, Sym::Pfirst];
-            let max_len = if thorough { 5 } else { 3 };
+            let max_len = if thorough { 5 } else { 4 };
             for len in 1..=max_len {
                 let keep = |syms: &[Sym], _ops: &[SOp]| -> bool {
                     has(syms, Sym::F) && (has(syms, Sym::A) || has(syms, Sym::Abig)) && (len < 4 || syms.iter().filter(|s| **s == Sym::F).count() >= 2 || has(syms, Sym::W))
